@@ -55,6 +55,8 @@ def handling_blocks(ctx: Ctx) -> List[Block]:
         acc = [e for e in p.events if e.kind == "call" and (calls_target(e, ADD) or calls_target(e, CANCEL))]
         if not acc:
             continue
+        if p.exit[0] == "raise":
+            continue  # a pass that ends in an exception after the acceptance (a consistency check) handles nothing further
         outer_path, loop = chain[-1]
         if (loop.loopid, id(p)) in seen:
             continue
